@@ -645,6 +645,10 @@ func (r *cliRun) logResponse(rsp *jrpc2.Response) string {
 	return "R," + chex(rsp.ResultString())
 }
 
+// errCallersCause is the cancellation cause some operation contexts carry (context.WithCancelCause /
+// WithDeadlineCause): the operation must still end with the context's own error, ctx.Err().
+var errCallersCause = errors.New("the caller's own cause")
+
 // startOp issues Call / Batch / Notify in its own goroutine with its own context.
 func (r *cliRun) startOp(kind string, specs []cspec, withDeadline bool) int {
 	r.mu.Lock()
@@ -653,7 +657,15 @@ func (r *cliRun) startOp(kind string, specs []cspec, withDeadline bool) int {
 	if withDeadline {
 		r.ndead++
 		op.deadline = time.Now().Add(time.Duration(r.ndead) * time.Hour)
-		op.ctx, op.cancel = context.WithDeadline(context.Background(), op.deadline)
+		if n%2 == 1 {
+			// a context that carries a cause of the caller's own: ctx.Err() is still DeadlineExceeded
+			op.ctx, op.cancel = context.WithDeadlineCause(context.Background(), op.deadline, errCallersCause)
+		} else {
+			op.ctx, op.cancel = context.WithDeadline(context.Background(), op.deadline)
+		}
+	} else if n%2 == 1 {
+		cctx, ccancel := context.WithCancelCause(context.Background())
+		op.ctx, op.cancel = cctx, func() { ccancel(errCallersCause) } // ctx.Err() is still Canceled
 	} else {
 		op.ctx, op.cancel = context.WithCancel(context.Background())
 	}
